@@ -65,8 +65,20 @@ func gcMakeMsg(n int) *message.Message {
 	m := message.NewMessage(gcMsgUUID(n), []byte(fmt.Sprintf("payload-%d", n)))
 	m.Metadata.Set("n", fmt.Sprint(n))
 	m.Metadata.Set("k", "published-value")
+	// the publisher's own context on the message (a value of its own; for every third message
+	// already cancelled): deliveries derive from the SUBSCRIBE context, and a blocking Publish
+	// waits for the Acks whatever happens to this one
+	ctx := context.WithValue(context.Background(), gcPubKey{}, n)
+	if n%3 == 0 {
+		c2, cancel := context.WithCancel(ctx)
+		cancel()
+		ctx = c2
+	}
+	m.SetContext(ctx)
 	return m
 }
+
+type gcPubKey struct{}
 
 func gcContentOK(m *message.Message) bool {
 	var n int
@@ -353,6 +365,11 @@ func gcRun(rt *hookrt.Runtime, sc *gcScenario, rng *rand.Rand) {
 		pan := guard("Publish after Close", func() { err = ps.Publish("topic-0", gcMakeMsg(9999)) })
 		rt.Stamp("api.publish.ret", "99", "0", fmt.Sprint(err == nil && !pan))
 		rt.Stamp("api.publish_after_close.ret", fmt.Sprint(err == nil))
+		var err0 error
+		rt.Stamp("api.publish.call", "98", "0", "0")
+		pan0 := guard("Publish (no messages) after Close", func() { err0 = ps.Publish("topic-0") })
+		rt.Stamp("api.publish.ret", "98", "0", fmt.Sprint(err0 == nil && !pan0))
+		rt.Stamp("api.publish_after_close_empty.ret", fmt.Sprint(err0 == nil))
 		var ch <-chan *message.Message
 		rt.Stamp("api.subscribe.call", fmt.Sprint(len(sc.Subs)), "0")
 		guard("Subscribe after Close", func() { ch, err = ps.Subscribe(context.Background(), "topic-0") })
